@@ -75,6 +75,9 @@ pub struct NodeSpec {
     /// listen on and advertise the shard-aware port (Scylla nodes only)
     pub shard_aware_port: bool,
     pub plain_port_shard: PlainPortShard,
+    /// NAT emulation on the shard-aware port: Some(map) = a connection whose source port asks for shard `p % nr`
+    /// is bound to `map[p % nr]` instead (None = ScyllaDB's rule, shard = source port % nr)
+    pub shard_port_map: Option<Vec<u16>>,
     /// advertise TABLETS_ROUTING_V1
     pub tablets_v1: bool,
     /// advertise SCYLLA_USE_METADATA_ID
@@ -104,6 +107,7 @@ impl NodeSpec {
             host_id: None,
             shard_aware_port: true,
             plain_port_shard: PlainPortShard::RoundRobin,
+            shard_port_map: None,
             tablets_v1: false,
             metadata_id: false,
             lwt_mark: None,
@@ -1043,6 +1047,10 @@ impl MockCluster {
     pub async fn wait_held(&self, what: &str, pred: impl Fn(&Action) -> bool) -> Result<Action, String> {
         self.wait_state(what, DEADLINE, |st| st.held.iter().map(|h| &h.action).find(|a| pred(a)).cloned()).await
     }
+    /// `wait_held` with an explicit timeout (for harnesses that interleave waiting with other activity).
+    pub async fn wait_held_for(&self, what: &str, timeout: Duration, pred: impl Fn(&Action) -> bool) -> Result<Action, String> {
+        self.wait_state(what, timeout, |st| st.held.iter().map(|h| &h.action).find(|a| pred(a)).cloned()).await
+    }
     /// Wait until at least n parked actions satisfy `pred`.
     pub async fn wait_held_count(&self, what: &str, n: usize, pred: impl Fn(&Action) -> bool) -> Result<Vec<Action>, String> {
         self.wait_state(what, DEADLINE, |st| {
@@ -1123,6 +1131,15 @@ impl MockCluster {
         };
         sent && rx.await.is_ok()
     }
+    /// Write arbitrary bytes on a connection, behind everything already released on it (garbage header, wrong
+    /// protocol version, a frame for a stream nobody waits on). Not logged. False if the connection is gone.
+    pub fn send_raw(&self, conn: u64, bytes: Vec<u8>) -> bool {
+        let st = self.lock();
+        match st.conns.get(&conn) {
+            Some(c) if c.info.open => c.tx.send(WriteCmd::Bytes(bytes)).is_ok(),
+            _ => false,
+        }
+    }
     /// Push an event to every open connection of `node` that REGISTERed for its type. Returns how many got it.
     pub fn push_event(&self, node: usize, event: Event) -> usize {
         let frame = Envelope::from(Response::Event(event.clone())).encode_frame(-1);
@@ -1176,7 +1193,8 @@ impl MockCluster {
             let ns = &mut st.nodes[node];
             let shard = ns.spec.shards.map(|(nr, _)| {
                 if shard_port {
-                    peer.port() % nr
+                    let asked = peer.port() % nr;
+                    ns.spec.shard_port_map.as_ref().and_then(|m| m.get(asked as usize).copied()).map(|s| s % nr).unwrap_or(asked)
                 } else {
                     match ns.spec.plain_port_shard {
                         PlainPortShard::Fixed(s) => s % nr,
